@@ -76,7 +76,7 @@ def extract(payload: bytes):
         return f"EXC {type(e).__name__}: {e}"
 
 
-def check_positive(acc, payload, area_off, cfg_block, key, options, label, case):
+def check_positive(acc, payload, area_off, cfg_block, key, options, label, case, image=None):
     bc = extract(payload)
     acc.transitions += 1
     acc.case(label, outcome=bc[:30] if isinstance(bc, str) else (len(bc.settings_tuple), len(key)))
@@ -113,6 +113,9 @@ def check_positive(acc, payload, area_off, cfg_block, key, options, label, case)
         "xorkey": bc.xorkey,
         "unmasked": bytes(g.unmasked_beacon_config or b""),
     }
+    if image is not None:
+        want.update(architecture=image[0], pe_compile_stamp=image[1], pe_export_stamp=image[2])
+        got.update(architecture=bc.architecture, pe_compile_stamp=bc.pe_compile_stamp, pe_export_stamp=bc.pe_export_stamp)
     bad = [k for k in want if want[k] != got[k]]
     if bad:
         acc.fail("C17/recover/" + "+".join(bad), case, {k: _j(want[k]) for k in bad}, {k: _j(got[k]) for k in bad})
@@ -190,7 +193,7 @@ def chunk_positions(chunk, acc):
         for kind in ("pe86", "pe64", "xor86", "xor64"):
             acc.states += 1
             payload, off = build_container(kind, area, acc.seed)
-            check_positive(acc, payload, off, C["realistic"], key, opts, ("cont", klen, kind), {"kind": "container", "keylen": klen, "family": fam, "container": kind, "seed": acc.seed})
+            check_positive(acc, payload, off, C["realistic"], key, opts, ("cont", klen, kind), {"kind": "container", "keylen": klen, "family": fam, "container": kind, "seed": acc.seed}, image=("x64" if "64" in kind else "x86", 0x5FA0B201, 0x5FA0B264))
     acc.sample({"positions": [[0, 0], [1, 7], [5000, 3000], [8191, 0]], "containers": ["raw", "PE .data", "XorEncoded PE"]})
 
 
